@@ -129,7 +129,9 @@ def main():
         by = "rule-based" if k % 2 else "mcs-based"
         rows.append({"reaction": a, "input_reaction": a, "solved": k % 5 != 0, "solved_by": by,
                      "confidence": 0.9 if by == "mcs-based" else float("nan"),
-                     "expected_reaction": variant(a, rng, "random" if k % 2 else "kekule")})
+                     # some rows have no expected reaction (they are skipped by the command)
+                     "expected_reaction": (float("nan") if k % 7 == 3 else
+                                           variant(a, rng, "random" if k % 2 else "kekule"))})
     src = os.path.join(wd, "bench_in.csv")
     pd.DataFrame(rows).to_csv(src)
     with open(src + ".stats", "w") as f:
@@ -153,7 +155,7 @@ def main():
         except BaseException as ex:
             err = repr(ex)
         add({"ev": "bench", "method": method, "raised": err, "correct": int(res.get("total_correct", -1)),
-             "solved_with_expected": sum(1 for r in rows if r["solved"])})
+             "solved_with_expected": sum(1 for r in rows if r["solved"] and isinstance(r["expected_reaction"], str))})
         if os.path.exists(outp):
             os.remove(outp)
     os.remove(src)
